@@ -54,10 +54,12 @@ RetOk(id, kind, seq, t) ==
   /\ cand' = Tail(cand) /\ cur' = NoFrame
   /\ calls' = [i \in DOMAIN calls \ {id} |-> calls[i]]
   /\ UNCHANGED <<open, seqSend, seqRcv, acks, dev>>
-(* request id fails with a management error (a frame of the wrong type is consumed by the failure) *)
-RetErr(id, t) ==
+(* request id fails with a management error.  why = "unexpected": the response had the wrong type - that frame is used up
+   by the failure;  any other failure (timeout, refusal, T_NAK) uses no frame *)
+RetErr(id, why, t) ==
   /\ id \in DOMAIN calls /\ t <= calls[id].t + BOUND     \* within bounded time
-  /\ cand' \in {cand} \cup (IF cand = <<>> THEN {} ELSE {Tail(cand)})
+  /\ IF why = "unexpected" THEN cand # <<>> /\ Head(cand).kind # calls[id].kind /\ cand' = Tail(cand)
+                            ELSE cand' = cand
   /\ cur' = NoFrame /\ calls' = [i \in DOMAIN calls \ {id} |-> calls[i]]
   /\ UNCHANGED <<open, seqSend, seqRcv, acks, dev>>
 =============================================================================
